@@ -184,7 +184,7 @@ type fnLocal struct {
 	mayAtRet  map[*ssa.Return]map[string]lockRef
 	deferred  map[string]bool
 	inProg    map[ssa.Value]bool
-	cuts      int // number of times a provenance cycle was cut (a value met while it was being computed)
+	cuts      int                // number of times a provenance cycle was cut (a value met while it was being computed)
 	freshFld  map[string]pathSet // fresh alloc field stores: allocKey+sels -> prov
 	lockSites []lockSite
 }
